@@ -4,6 +4,7 @@ import random
 import lib
 import solver_checks as SC
 import graph_checks as GC
+import gen_checks as NC
 
 N_GAMES = dict(quick=1500, thorough=40000)
 
@@ -21,6 +22,8 @@ def games_nonabs(rng, tier):
 
 
 CHECKERS = {
+    'params': NC.check_params,
+    'names': NC.check_names,
     'graph': GC.check_graph,
     'reach': lambda inp, mods, rng: SC.check_reach_only(inp, mods),
     'solve': lambda inp, mods, rng: SC.check_solve(inp, mods),
@@ -36,3 +39,6 @@ SUITES['C10'] = [dict(name='solve-small-games', gen=games, checker='solve'), dic
 SUITES['C13'] = [dict(name='permuted-presentations', gen=games, checker='permute')]
 
 SUITES['C07'] = [dict(name='graphs', gen=GC.gen_graphs, checker='graph')]
+
+SUITES['C15'] = [dict(name='parameter-sets-and-boards', gen=NC.gen_params, checker='params')]
+SUITES['C17'] = [dict(name='file-names', gen=NC.gen_names, checker='names')]
